@@ -65,6 +65,13 @@ def fixed_cases(tier):
     out.append({"spec": {"repr": "u16", "vis": "pub", "ident": "E", "enum_attrs": [],
                          "variants": [{"ident": "V%d" % i, "disc": None} for i in range(big)]},
                 "cfg": S.simple_config(["into", "try_from", "iter"]), "seed": 2})
+    # the documented maximum of 65534 variants: accepted (check-only compile, 7 s); built and run in thorough
+    out.append({"spec": {"repr": "u16", "vis": "pub", "ident": "E", "enum_attrs": [],
+                         "variants": [{"ident": "V%d" % i, "disc": None} for i in range(65534)]},
+                "cfg": S.simple_config(["into", "try_from", "iter"]), "seed": 5, "accept_only": True})
+    out.append({"spec": {"repr": "i32", "vis": "pub", "ident": "E", "enum_attrs": [],
+                         "variants": [{"ident": "V%d" % i, "disc": ("-7" if i == 0 else "100000" if i == 60000 else None)} for i in range(65534)]},
+                "cfg": S.simple_config(["into", "MIN", "MAX"]), "seed": 6, "accept_only": True})
     if tier == "thorough":
         out.append({"spec": {"repr": "u16", "vis": "pub", "ident": "E", "enum_attrs": [],
                              "variants": [{"ident": "V%d" % i, "disc": None} for i in range(65534)]},
@@ -110,6 +117,15 @@ def run_case(case):
     m = M.RefEnum(spec)
     assert m.in_domain(), "generator produced an out-of-domain enum"
     rnd = J.case_rng(case)
+    if case.get("accept_only"):
+        ok, err = J.accepts(E.enum_item_text(spec, cfg))
+        if not ok:
+            out.violate("an enum inside the documented domain is rejected", stderr=J.short_err(err), variants=m.n, repr=m.repr)
+        out.label("size", "65534")
+        out.nontrivial = True
+        out.fingerprint = J.fp("accept_only", m.repr, m.n, J.cfg_text(cfg))
+        out.sample = {"accept_only": True, "variants": m.n, "repr": m.repr, "config": J.cfg_text(cfg)}
+        return out
     sc = E.Script()
     idxs = C.pick_idxs(m, rnd)
     C.sc_cast(sc, 0, m, idxs)
